@@ -145,6 +145,7 @@ func c19Valid(kind string, expiredNow bool) bool {
 }
 
 type tlsConnRecord struct {
+	resumed    bool
 	service    string
 	kind       string
 	handshake  error
@@ -234,6 +235,11 @@ func c19(e *Env) {
 			rec := &tlsConnRecord{service: service, kind: kind, at: w.Now()}
 			recs = append(recs, rec)
 			scfg := &tls.Config{ClientAuth: tls.RequestClientCert, MinVersion: tls.VersionTLS12}
+			// one long-lived server: session tickets issued on one connection are honoured on the
+			// next (a client that resumes a session is shown no chain at all)
+			var tk [32]byte
+			copy(tk[:], "c19 ticket key of "+service)
+			scfg.SetSessionTicketKeys([][32]byte{tk})
 			if ch := pki.serverChain(kind); ch != nil {
 				scfg.Certificates = []tls.Certificate{*ch}
 			}
@@ -259,6 +265,10 @@ func c19(e *Env) {
 				return
 			}
 			w.Logf("tls %s(%s): handshake complete sni=%s", service, kind, rec.sni)
+			if tc.ConnectionState().DidResume {
+				e.Res.Stats["probe.c19.resumed_sessions"]++
+				rec.resumed = true
+			}
 			rec.clientCert = len(tc.ConnectionState().PeerCertificates) > 0 && bytes.Equal(tc.ConnectionState().PeerCertificates[0].Raw, pki.clientDER)
 			app(tc, rec)
 		}
